@@ -88,6 +88,30 @@ HARNESS(h_dlim) {
   WIT(r.f0 == 0 && IN_d > 1000 && (!CLOSE || r.f10 == 1));
 #endif
 }
+/* C07 K7.4: BSON container length accounting */
+INPUT(u64, IN_blen) INPUT(u64, IN_bpos) INPUT(u64, IN_ppos)
+typedef struct S_struct_2ebres bres_t;
+HARNESS(h_bson_end) {
+  HAVOC(IN_blen); HAVOC(IN_bpos); HAVOC(IN_ppos); ASSUME(IN_ppos < (1ULL << 40) && IN_bpos < (1ULL << 40));
+  bres_t r; memset(&r, 0, sizeof r); IRC_THROW_ALLOWED = 0;
+  k_bson_end(WHICH, IN_blen, IN_bpos, IN_ppos, &r);
+  if (IN_bpos != IN_blen) P(r.f0 != 0 && r.f3 == 0, "a BSON document/array whose consumed bytes differ from its declared length is rejected (size_mismatch), in either direction");
+  else P(r.f0 == 0 && r.f1 == 2 && r.f2 == IN_ppos + IN_bpos, "a well-sized container closes: its state is popped and its bytes are added to the enclosing document");
+  WIT(r.f0 == 0); WIT(r.f0 != 0);
+}
+/* C07: a stringref namespace (tag 256) lives exactly as long as the container that carries it */
+INPUT(u32, IN_ns)
+HARNESS(h_cbor_ns) {
+  HAVOC(IN_d); HAVOC(IN_m); HAVOC_ARR(IN_b, NB); HAVOC(IN_ns); ASSUME(IN_ns <= 1);
+  ASSUME(IN_d >= 0 && IN_d < IN_m);
+  u8* s = malloc(NB); ASSUME(s != 0); memcpy(s, IN_b, NB);
+  ASSUME((s[0] >> 5) == (WHICH == 2 ? 5 : 4)); ASSUME((s[0] & 0x1f) == 0 || (s[0] & 0x1f) == 31);   /* empty definite container, or indefinite */
+  dres_t r; memset(&r, 0, sizeof r); IRC_THROW_ALLOWED = 0;
+  k_dlim_cbor_ns(WHICH, IN_d, IN_m, IN_ns, s, NB, 1, &r);
+  P(r.f0 == 0 && r.f12 == IN_ns, "a pending tag 256 opens exactly one stringref namespace with the container");
+  if (r.f2) P(r.f8 == 0 && r.f13 == 0, "closing the container closes its namespace");
+  WIT(IN_ns == 1 && r.f13 == 0 && r.f2);
+}
 /* K10.3 */
 #ifndef AVAIL
 #define AVAIL 3
